@@ -162,3 +162,28 @@ def accepts(w):
     got = bool(d.accepts(w["device"]))
     want = w["device"] is None or w["device"] == w["name"]
     return {"reproduced": got != want, "detail": "Driver named %r accepts(%r) -> %r, statement says %r" % (w["name"], w["device"], got, want)}
+
+
+@kind("router.enumerate")
+def router_enumerate(w):
+    """bounded stand-in for C04/C05 when a task is out of the engine's reach: every message tag x sender x 0-2 devices (accepting or not)
+    x 0-2 clients with every policy, on the real router, against the statement's routing function"""
+    import itertools
+    probs, cases = [], 0
+    tags = sorted(FROM_DEVICE | FROM_CLIENT)
+    for tag in tags:
+        for nd in (0, 1, 2):
+            for acc in itertools.product([True, False], repeat=nd):
+                for nc in (0, 1, 2):
+                    for pol in itertools.product([None, "Never", "Also", "Only"], repeat=nc):
+                        senders = [None, "other"] + [["client", i] for i in range(nc)] + [["device", i] for i in range(nd)]
+                        for s in senders:
+                            cases += 1
+                            r = process_message({"tag": tag, "n_clients": nc, "n_devices": nd, "accepts": list(acc), "policies": list(pol), "sender": s,
+                                                 "msg_device": "CAM", "msg_value": "Only"})
+                            if r.get("reproduced"):
+                                probs.append("%s sender=%s devices=%s policies=%s: %s" % (tag, s, acc, pol, r["detail"]))
+                                if len(probs) >= 3:
+                                    return {"cases": cases, "reproduced": True, "detail": "; ".join(probs),
+                                            "failures": [{"detail": p, "reproduced": True, "witness": {"replay_kind": "router.enumerate"}} for p in probs]}
+    return {"cases": cases, "reproduced": False, "detail": "real router agrees with the statement on every enumerated configuration", "failures": []}
